@@ -37,13 +37,38 @@ def _alarm(signum, frame):
     raise _Timeout()
 
 
+MEM_GROWTH_LIMIT = 1 << 29      # bytes of resident memory a single guarded call may add
+MEM_TOTAL_LIMIT = 3 << 30       # resident memory of the harness process above which every guarded call is ended
+_PAGE = 4096
+
+
+def _rss() -> int:
+    try:
+        with open("/proc/self/statm") as fh:
+            return int(fh.read().split()[1]) * _PAGE
+    except Exception:  # noqa: BLE001 - no procfs: only the wall-clock guard remains
+        return 0
+
+
 def guarded(f, seconds: float = None):
-    """Run a real library call under a wall-clock guard: a broken loop (mutant, regression)
-    must become an observable ("err", "_Timeout"), not a hanging check."""
+    """Run a real library call under a wall-clock AND memory guard: a broken loop (mutant, regression)
+    must become an observable ("err", "_Timeout"), not a hanging check — and a loop that allocates
+    while it spins (e.g. one cache level per round) must not exhaust the machine before the clock
+    runs out: the timer fires four times a second and also ends the call when its resident memory
+    grew by more than MEM_GROWTH_LIMIT (or the process is above MEM_TOTAL_LIMIT)."""
     global TIMEOUTS
+    import time
     from harness.common import call
-    signal.signal(signal.SIGALRM, _alarm)
-    signal.setitimer(signal.ITIMER_REAL, seconds or TIMEOUT_S)
+    t_end = time.monotonic() + (seconds or TIMEOUT_S)
+    rss0 = _rss()
+
+    def tick(signum, frame):
+        if time.monotonic() >= t_end or _rss() - rss0 > MEM_GROWTH_LIMIT or _rss() > MEM_TOTAL_LIMIT:
+            signal.setitimer(signal.ITIMER_REAL, 0)
+            raise _Timeout()
+
+    signal.signal(signal.SIGALRM, tick)
+    signal.setitimer(signal.ITIMER_REAL, min(0.25, seconds or TIMEOUT_S), 0.25)
     try:
         r = call(f)
     finally:
